@@ -1,5 +1,6 @@
 #!/bin/sh
-# Re-evaluate every stored seeded change against the current checks.
+# Re-evaluate every stored seeded change against the current checks: each check
+# recorded in the seed's meta.json as catching it (caught_by) must still catch it.
 # usage: tools/reseed.sh [repo-dir]   (default /repo; use a snapshot for background runs)
 cd "$(dirname "$0")/.." || exit 2
 REPO="${1:-/repo}"
@@ -7,11 +8,13 @@ export ZSYM_REPO="$REPO"
 fail=0
 for d in seeded/*/; do
   name=$(basename "$d")
-  prop=$(python3 -c "import json;print(json.load(open('$d/meta.json'))['property'])")
+  props=$(python3 -c "import json;d=json.load(open('$d/meta.json'));print(' '.join(d.get('caught_by') or [d['property']]))")
   if ! git -C "$REPO" apply "$PWD/$d/patch.diff" 2>/dev/null; then echo "$name: patch does not apply"; fail=1; continue; fi
-  out=$(./check.sh "$prop" quick 2>&1); rc=$?
+  for prop in $props; do
+    out=$(./check.sh "$prop" quick 2>&1); rc=$?
+    n=$(echo "$out" | grep -c '^VIOLATION')
+    if [ "$rc" = 1 ] && [ "$n" -gt 0 ]; then echo "$name: caught by $prop ($n violations)"; else echo "$name: MISSED by $prop (exit $rc) $(echo "$out" | grep -c INCONCLUSIVE) inconclusive"; fail=1; fi
+  done
   git -C "$REPO" checkout -- . >/dev/null 2>&1
-  n=$(echo "$out" | grep -c '^VIOLATION')
-  if [ "$rc" = 1 ] && [ "$n" -gt 0 ]; then echo "$name: caught by $prop ($n violations)"; else echo "$name: MISSED by $prop (exit $rc) $(echo "$out" | grep -c INCONCLUSIVE) inconclusive"; fail=1; fi
 done
 exit $fail
